@@ -1,6 +1,6 @@
 #!/bin/bash
 # tools/run_all.sh [quick|thorough]  - runs every claimed check, validates evidence
-cd /verif || exit 2
+cd "$(dirname "$0")/.." || exit 2
 tier="${1:-quick}"
 ids=$(python3 -c "import json;print(' '.join(c['property_id'] for c in json.load(open('MANIFEST.json'))['checks']))")
 rc=0
@@ -16,10 +16,10 @@ done
 python3-vt - <<'P'
 import json,jsonschema,glob
 s=json.load(open('/root/.vp/EVIDENCE.schema.json'))
-m=json.load(open('/verif/MANIFEST.json'))
+m=json.load(open('MANIFEST.json'))
 jsonschema.validate(m, json.load(open('/root/.vp/MANIFEST.schema.json')))
 for c in m['checks']:
-    e=json.load(open(c['evidence_file'])); jsonschema.validate(e,s)
+    e=json.load(open(c['evidence_file'].replace('/verif/',''))); jsonschema.validate(e,s)
     assert e['level']==c['level_claimed']['category'], (c['property_id'], e['level'])
 print('manifest and all evidence files valid')
 P
